@@ -91,6 +91,118 @@ def is_loop_next_switch(fn, bid):
     return False
 
 
+def find_fn(ctx, F, suffix, rule="anchor"):
+    """Function whose path ends with `suffix` (lifetimes like ::<'_> in the path are ignored)."""
+    import re
+    want = suffix
+    cands = []
+    for fn in F.fn_list:
+        nm = re.sub(r"::<[^>]*>", "", fn.name)
+        if nm == want or nm.endswith("::" + want):
+            cands.append(fn)
+    if len(cands) == 1 and cands[0].entry is not None:
+        return cands[0]
+    ctx.bad(rule, "missing-function:%s" % suffix, "anchor function %s not found exactly once in crate %s (found %d)" % (suffix, F.j.get("crate"), len(cands)))
+    return None
+
+
+def cond_def(fn, cond, depth=0):
+    """The defining expression of a MIR branch operand (through single-definition temporaries)."""
+    e = strip(cond)
+    while depth < 8 and e.get("k") == "ref":
+        d = fn.single_def(e["id"])
+        if d is None:
+            break
+        e = strip(d)
+        depth += 1
+    return e
+
+
+def callee_text(c):
+    return ((c.get("fn") or "") + " " + (c.get("tfn") or "")) if isinstance(c, dict) and c.get("k") == "call" else ""
+
+
+def inline_text(fn, e, depth=0):
+    """Render an expression with single-definition temporaries replaced by their definitions."""
+    e = strip(e)
+    if depth < 8 and e.get("k") == "ref" and str(e.get("name", "")).startswith("_"):
+        d = fn.single_def(e["id"])
+        if d is not None:
+            return inline_text(fn, d, depth + 1)
+    k = e.get("k")
+    if k == "call":
+        return "%s(%s)" % (e.get("fn"), ", ".join(inline_text(fn, a, depth + 1) for a in e.get("a", [])))
+    if k == "un":
+        return "%s%s" % (e["op"], inline_text(fn, e["e"], depth + 1))
+    if k == "bin":
+        return "(%s %s %s)" % (inline_text(fn, e["l"], depth + 1), e["op"], inline_text(fn, e["r"], depth + 1))
+    if k == "mem":
+        b = inline_text(fn, e["b"], depth + 1)
+        return "(%s).%s" % (b, e["f"]) if b.startswith("*") else "%s.%s" % (b, e["f"])
+    if k == "cast":
+        return inline_text(fn, e["e"], depth + 1)
+    return show(e)
+
+
+def cond_text(fn, cond, truth):
+    """(text, truth) of a MIR branch with leading negations folded into the truth value."""
+    d = cond_def(fn, cond)
+    while d.get("k") == "un" and d["op"] == "!":
+        truth = not truth
+        d = cond_def(fn, d["e"])
+    return inline_text(fn, d), truth
+
+
+class TextGate(Monitor):
+    """Must-pass-through gate for MIR: alternatives are (substring-tuple, want) tested against the
+    inlined text of branch conditions.  m: 0 = not established, 1 = established."""
+
+    def __init__(self, fn, accept_pts, alts, reset_pts=()):
+        self.fn, self.accept, self.alts, self.reset = fn, set(accept_pts), alts, set(reset_pts)
+
+    def elem(self, m, pt, e, s):
+        if pt in self.accept and not m:
+            return Viol("reached without the required test", pt)
+        if pt in self.reset:
+            return 0
+        return m
+
+    def edge(self, m, bid, edge, cond, truth, s):
+        if cond is not None and truth is not None:
+            txt, t = cond_text(self.fn, cond, truth)
+            for needles, want in self.alts:
+                if t == want and all(n in txt for n in needles):
+                    return 1
+        return m
+
+
+def text_gate(ctx, rule, fn, accept_pts, preds, accept_desc="accept"):
+    """preds: list of (label, [((needle, …), want), …])."""
+    if not accept_pts:
+        ctx.bad(rule, "%s:no-accept-point" % fn.name, "no %s point found in %s" % (accept_desc, fn.name))
+        return
+    for label, alts in preds:
+        s = Search(fn, TextGate(fn, accept_pts, alts), budget=2000000)
+        v = s.run(0)
+        key = "%s:%s" % (fn.name.split("::")[-1], label)
+        if v is None:
+            ctx.ok(rule, key, "every path to %s (%d point(s)) passes `%s` (%d states)" % (accept_desc, len(accept_pts), label, s.states),
+                   sample={"function": fn.name, "accept": [fn.loc(p) for p in sorted(accept_pts)][:3], "predicate": label})
+        else:
+            ctx.bad(rule, key, "%s: a path reaches %s at %s without `%s`" % (fn.name, accept_desc, fn.loc(v.pt), label),
+                    {"function": fn.name, "site": fn.loc(v.pt), "path": s.render_path(v.path)[-10:]})
+
+
+def const_ret_points(fn, value):
+    """Points assigning the constant `value` (0/1) to the return place _0."""
+    out = []
+    for pt, e in fn.points():
+        for n in own_walk(e):
+            if n.get("k") == "assign" and show(n["l"]) == "_0" and strip(n["r"]).get("k") == "int" and strip(n["r"]).get("v") == value:
+                out.append(pt)
+    return out
+
+
 # Rust halves of C-side properties are added below as they are written ------------------------
 def c13_rust(ctx):
     pass
